@@ -932,11 +932,8 @@ impl Builtin for TilBuiltin {
                 match (ac.next(), ac.next(), bc.next(), bc.next()) {
                     (Some(a), None, Some(b), None) => Ok(Obj::from(
                         // too lazy to make it lazy...
-                        ((a as u32)..(b as u32))
-                            .map(|c| {
-                                std::char::from_u32(c).expect("string range incoherent roundtrip")
-                            })
-                            .collect::<String>(),
+                        // a char range steps over the surrogate gap U+D800..U+DFFF
+                        (a..b).collect::<String>(),
                     )),
                     _ => Err(NErr::argument_error(format!("til: Bad string args"))),
                 }
@@ -1008,11 +1005,8 @@ impl Builtin for ToBuiltin {
                 match (ac.next(), ac.next(), bc.next(), bc.next()) {
                     (Some(a), None, Some(b), None) => Ok(Obj::from(
                         // too lazy to make it lazy...
-                        ((a as u32)..=(b as u32))
-                            .map(|c| {
-                                std::char::from_u32(c).expect("string range incoherent roundtrip")
-                            })
-                            .collect::<String>(),
+                        // a char range steps over the surrogate gap U+D800..U+DFFF
+                        (a..=b).collect::<String>(),
                     )),
                     _ => Err(NErr::argument_error(format!(
                         "to: Bad string args: lens {}, {}",
